@@ -191,7 +191,7 @@ pub mod vmrun {
                 _ => format!("{}store({}, {}, {})", pre, arg_src(op.a), arg_src(op.b), op.vsrc),
             };
             let (c, bits, d) = input(&mut self.vm, &src, self.opt);
-            if c == E_COMPILE || c == PANIC || c == E_OTHER { println!("!HARNESS\tinput `{}` (opt {}) -> class {}: {}", src, self.opt, c, d.replace('\n', " ").replace('\t', " ")); }
+            if c == E_COMPILE || c == E_OTHER { println!("!HARNESS\tinput `{}` (opt {}) -> class {}: {}", src, self.opt, c, d.replace('\n', " ").replace('\t', " ")); }
             if c != OK_VAL { return Res { code: c, val: 0 }; }
             let v = Value::from_raw(bits);
             match op.k {
@@ -370,6 +370,7 @@ fn gen_op(rng: &mut Rng, r: &RefMap, surf: &str, huge_alloc: &[i128], dist: &mut
             dist.hit("malformed:handle-alias-of-live");
             return A::I({ let k0 = *rng.pick(&live) as i128; alias_of(rng, k0, vm) });
         }
+        if !dead.is_empty() && rng.chance(1, 4) { dist.hit("malformed:stale-handle"); return A::I(*rng.pick(&dead) as i128); }
         match rng.below(if vm { 6 } else { 4 }) {
             0 | 1 if !dead.is_empty() => { dist.hit("malformed:stale-handle"); A::I(*rng.pick(&dead) as i128) }
             0 | 1 | 2 => { dist.hit("malformed:never-issued"); A::I((next_fresh + rng.below(3)) as i128) }
@@ -445,8 +446,12 @@ fn run_history(surf: &str, s: &mut dyn Surface, rng: &mut Rng, len: usize, huge:
     let n = fixed.map(|f| f.len()).unwrap_or(len);
     for i in 0..n {
         let op = match fixed { Some(f) => f[i].clone(), None => gen_op(rng, &r, surf, huge, dist) };
+        if flag("--trace") { eprintln!("#STEP\t{}\t{}\t{}", surf, i, replay_text(std::slice::from_ref(&op))); }
         let got = s.exec(&op);
         for (sig, d) in oracle_step(surf, &mut r, &op, &got, s.heap()) { findings.push((i, sig, d)); }
+        dist.hit(&format!("outcome:{}:{}", op_name(op.k), match got.code { OK_HANDLE | OK_UNIT | OK_VAL | OK_SIZE => "ok", E_INVALID_SIZE => "InvalidSize", E_INVALID_HANDLE => "InvalidHandle",
+            E_DOUBLE_FREE => "DoubleFree", E_USE_AFTER_FREE => "UseAfterFree", E_OOB => "OutOfBounds", E_NEG => "NegativeIndex", E_TYPE => "TypeError", E_OOM => "OutOfMemory", _ => "other" }));
+        if op.k != ALLOC && !(surf == "api") { dist.hit(if op.via_fn { "form:inside-@no_gc-function" } else { "form:top-level" }); }
         obs.push(got.code as i128);
         obs.push(got.val);
         obs.push(s.heap().bytes_allocated() as i128);
@@ -564,7 +569,8 @@ fn main() {
     let max_heap: u64 = 16 << 20;
     let replay = arg("--replay-ops");
     let mut dist = Dist(BTreeMap::new());
-    if surf == "bytes" { bytes::main(seed, hist, maxlen, replay, &mut dist); }
+    if surf == "byteslimits" { bytes::limits(arg_u64("--max-alloc", 256 << 20) as i64, &mut dist); }
+    else if surf == "bytes" { bytes::main(seed, hist, maxlen, replay, &mut dist); }
     else {
         let huge_api: Vec<i128> = vec![1i128 << 61, (1 << 61) + 5, 1 << 63, u64::MAX as i128];
         let huge_vm: Vec<i128> = vec![(max_heap as i128) / 8 + 1, 3_000_000, 1 << 40, (1 << 47) - 1];
